@@ -361,10 +361,47 @@ impl Property for C10 {
             let touch = rings.iter().enumerate().any(|(i, r)| r[..r.len().saturating_sub(1)].iter().any(|v| {
                 rings.iter().enumerate().any(|(j, q)| i != j && q.windows(2).any(|w| *v != w[0] && *v != w[1] && on_segment_int(w[0], w[1], *v)))
             }));
-            if touch { "[ring-vertex-inside-an-edge-of-another-ring]" } else { "" }
+            // ... and, narrower: a MERGE vertex (a local right extreme of its ring, in the frame the sweep sees, at which the
+            // polygon's interior angle is reflex) lies before such a touching vertex in sweep order (x, then y). Without one no
+            // merge can be pending when the touched edge is split, and a failure is not the recorded finding.
+            let frame = |v: &C| c.xf.d4(*v);
+            let mut merges: Vec<C> = vec![];
+            for p in &polys {
+                for (ri, r) in p.rings().enumerate() {
+                    let mut q: Vec<C> = r[..r.len().saturating_sub(1)].iter().map(frame).collect();
+                    if q.len() < 3 {
+                        continue;
+                    }
+                    // walk the ring with the polygon's interior on the left: exterior counter-clockwise, holes clockwise
+                    let a2: i128 = (0..q.len()).map(|i| { let (u, w) = (q[i], q[(i + 1) % q.len()]); u.0 as i128 * w.1 as i128 - w.0 as i128 * u.1 as i128 }).sum();
+                    if (ri == 0) != (a2 > 0) {
+                        q.reverse();
+                    }
+                    let n = q.len();
+                    for k in 0..n {
+                        let (a, m, b) = (q[(k + n - 1) % n], q[k], q[(k + 1) % n]);
+                        if a < m && b < m && cross_int(a, m, b) < 0 {
+                            merges.push(m);
+                        }
+                    }
+                }
+            }
+            let mut touches: Vec<C> = vec![];
+            for (i, r) in rings.iter().enumerate() {
+                for v in &r[..r.len().saturating_sub(1)] {
+                    if rings.iter().enumerate().any(|(j, q)| i != j && q.windows(2).any(|w| *v != w[0] && *v != w[1] && on_segment_int(w[0], w[1], *v))) {
+                        touches.push(frame(v));
+                    }
+                }
+            }
+            let pending = touches.iter().any(|t| merges.iter().any(|m| m < t));
+            if !touch { "" } else if pending { "[ring-vertex-inside-an-edge-of-another-ring|after-a-merge-vertex]" } else { "[ring-vertex-inside-an-edge-of-another-ring]" }
         };
         if !mono_cls.is_empty() {
             obs.label("monotone:ring-vertex-inside-an-edge-of-another-ring");
+            if mono_cls.contains("after-a-merge-vertex") {
+                obs.label("monotone:touch-after-a-merge-vertex");
+            }
         }
         let mono = guard(std::panic::AssertUnwindSafe(|| match &gg {
             Geometry::Polygon(p) => MonotonicPolygons::from(p.clone()),
